@@ -256,7 +256,7 @@ func runFreshFallback(c *Ctx) {
 				if !ok || !calleeIs(info, rc, "os", "Remove") || len(rc.Args) != 1 || rc.Pos() > call.Pos() {
 					return true
 				}
-				if types.ExprString(rc.Args[0]) != defText {
+				if types.ExprString(rc.Args[0]) != defText && !samePathExpr(f, rc.Args[0], def) {
 					return true
 				}
 				found = true
@@ -277,7 +277,7 @@ func runFreshFallback(c *Ctx) {
 				}
 				InspectNoLits(f.Body, func(y ast.Node) bool {
 					pc, ok := y.(*ast.CallExpr)
-					if ok && calleeIs(info, pc, "os", "Remove") && len(pc.Args) == 1 && types.ExprString(pc.Args[0]) == primaryText {
+					if ok && calleeIs(info, pc, "os", "Remove") && len(pc.Args) == 1 && (types.ExprString(pc.Args[0]) == primaryText || samePathExpr(f, pc.Args[0], call.Args[0])) {
 						pifs := enclosingIfs(f.Body, pc)
 						if len(pifs) == len(ifs) && len(ifs) > 0 && pifs[len(pifs)-1] == ifs[len(ifs)-1] {
 							agree = true
@@ -615,7 +615,30 @@ func runActiveBound(c *Ctx) {
 			}
 			n++
 			key := fmt.Sprintf("active-bound/%s#%d", f.Name, n)
-			c.Check(ObjOf(info, be.Y) == announced, key, fs.Pos(), "files are activated up to the number of streams that were announced",
+			// the bound is the announced variable, or one of the two is a plain copy of the other
+			same := ObjOf(info, be.Y) == announced
+			if bo := ObjOf(info, be.Y); bo != nil && !same {
+				ao, _ := announced.(*types.Var)
+				if ao != nil {
+					if own := owningFunc(send, ao); own != nil {
+						for _, d := range allDefs(own, ao) {
+							if ObjOf(own.Info(), StripConv(own.Info(), d)) == bo {
+								same = true
+							}
+						}
+					}
+				}
+				if bv, ok := bo.(*types.Var); ok {
+					if own := owningFunc(f, bv); own != nil {
+						for _, d := range allDefs(own, bv) {
+							if ObjOf(own.Info(), StripConv(own.Info(), d)) == announced {
+								same = true
+							}
+						}
+					}
+				}
+			}
+			c.Check(same, key, fs.Pos(), "files are activated up to the number of streams that were announced",
 				"the sender activates files while `"+types.ExprString(fs.Cond)+"`, a bound that is not the number of data streams it opened and announced (`"+announced.Name()+"`): against a peer that allowed fewer streams than configured it keeps more files open than it announced streams, "+
 					"the receiver refuses the FileBegin beyond one open file per announced stream, and both sides fail")
 			return true
